@@ -213,6 +213,10 @@ def build_imported(spec, noise):
 
 def build(spec, noise):
     """-> (design, tracked_mode, stimulus) ; deterministic in spec['seed'] only"""
+    try:    # a build that raised inside `with conditional_assignment` must not poison the next design
+        pyrtl.conditional._reset_conditional_state()
+    except Exception:
+        pass
     if spec['cls'] in ('blif', 'iscas'):
         return build_imported(spec, noise)
     allocation_noise(noise, spec['seed'])
@@ -638,6 +642,7 @@ def run_export(spec, noise, textdir, order_id=0):
     texts.update(ctexts)
     # CompiledSimulation (traces Inputs/Outputs only; rebuilds the tracer's wire collection itself)
     if spec.get('compiled'):
+        ks = None
         try:
             ktr = pyrtl.SimulationTrace(block=block)
             ks = pyrtl.CompiledSimulation(register_value_map=dict(stim[0]),
@@ -645,6 +650,14 @@ def run_export(spec, noise, textdir, order_id=0):
                                           tracer=ktr, block=block)
             for step in stim[2]:
                 ks.step(dict(step))
+        except Exception as e:
+            # building / running the compiled simulator (gcc, dlopen, temp dir) is C02's concern and may
+            # depend on the environment: recorded, not reported as an exporter error
+            res['compiled_unavailable'] = '%s: %s' % (type(e).__name__, str(e)[:120])
+            ks = None
+        try:
+            if ks is None:
+                raise LookupError('skip')
             f = io.StringIO()
             ktr.print_vcd(f, include_clock=opts['include_clock'])
             texts['compiled:print_vcd'] = f.getvalue()
@@ -655,6 +668,8 @@ def run_export(spec, noise, textdir, order_id=0):
             pyrtl.output_verilog_testbench(f, simulation_trace=ktr, add_reset=opts['add_reset'], block=block)
             texts['compiled:output_verilog_testbench'] = f.getvalue()
             texts['compiled:simulation_trace'] = json.dumps(sorted((k, list(v)) for k, v in ktr.trace.items()))
+        except LookupError:
+            pass
         except Exception as e:
             texts['compiled:print_vcd'] = 'ERR %s: %s' % (type(e).__name__, str(e)[:160])
     res['duplicate_identifiers'] = {k: duplicate_identifiers(k, v) for k, v in texts.items()
